@@ -51,6 +51,7 @@ pub fn outcome() -> impl Strategy<Value = Outcome> {
         1 => Just(Outcome::Ok { frac: 0 }),
         1 => Just(Outcome::Ok { frac: u16::MAX }),
         2 => any::<u8>().prop_map(|idx| Outcome::Err { idx }),
+        1 => any::<u8>().prop_map(|idx| Outcome::Refused { idx }),
     ]
 }
 
